@@ -40,6 +40,7 @@ Definition fl_print_ref : nat := 3.       (* ToString of an array / object *)
 Definition fl_obj_grown : nat := 4.       (* iteration over an object that started empty and was assigned into *)
 Definition fl_push_result : nat := 5.     (* result of push / sort used *)
 Definition fl_str_index : nat := 6.       (* s[i] on a string *)
+Definition fl_loop_shadow : nat := 7.     (* an each whose variable name is already bound *)
 
 Record sstate := {
   s_env : list (bytes * jv);
@@ -717,9 +718,10 @@ Section Nodes.
           end
         end
       | PEach v k obj body =>
-        sdo a <- sem_expr efuel s obj; let '(c, s1) := a in
-        let saved_v := lookup v (s_env s1) in
-        let saved_k := match k with Some k' => lookup k' (s_env s1) | None => None end in
+        sdo a <- sem_expr efuel s obj; let '(c, s0) := a in
+        let saved_v := lookup v (s_env s0) in
+        let saved_k := match k with Some k' => lookup k' (s_env s0) | None => None end in
+        let s1 := match saved_v, saved_k with None, None => s0 | _, _ => flag s0 fl_loop_shadow end in
         let restore (s : sstate) : sstate :=
           (* loop variables are scoped to the loop *)
           let e1 := match saved_v with Some x => env_set (s_env s) v x | None => filter (fun p => negb (beqb (fst p) v)) (s_env s) end in
